@@ -5,6 +5,7 @@ package cluster
 import (
 	"fmt"
 	"os"
+	"strings"
 	"testing"
 	"time"
 
@@ -25,8 +26,9 @@ import (
 
 type c16Case struct {
 	Init     uint64   `json:"init"`
-	Programs [][]bool `json:"programs"` // per thread: true=set, false=clear
-	Bound    int      `json:"bound"` // preemption bound, -1 = unbounded
+	Programs [][]bool `json:"programs"`         // per thread: true=set, false=clear
+	Bound    int      `json:"bound"`            // preemption bound, -1 = unbounded
+	Create   bool     `json:"create,omitempty"` // every owner creates its own host object of a never-seen address itself (concurrent first creation)
 	Choices  []int    `json:"choices,omitempty"`
 }
 
@@ -41,17 +43,29 @@ func c16Body(c c16Case, obs *struct {
 	return func() {
 		addr := "127.0.0.1:11616"
 		info := &clusterInfo{name: "c16"}
-		var hosts []types.Host
-		for range c.Programs {
-			hosts = append(hosts, NewSimpleHost(v2.Host{HostConfig: v2.HostConfig{Address: addr}}, info))
+		hosts := make([]types.Host, len(c.Programs))
+		if c.Create {
+			// the per-address words live in a process-global store: a fresh address per execution
+			c16Fresh++
+			addr = fmt.Sprintf("127.0.%d.%d:11617", (c16Fresh>>8)&0xff, c16Fresh&0xff)
+			if c16Fresh >= 1<<16 {
+				addr = fmt.Sprintf("[fd00::%x]:11617", c16Fresh)
+			}
+		} else {
+			for i := range c.Programs {
+				hosts[i] = NewSimpleHost(v2.Host{HostConfig: v2.HostConfig{Address: addr}}, info)
+			}
+			// initial word
+			p := GetHealthFlagPointer(addr)
+			*p = c.Init
 		}
-		// initial word
-		p := GetHealthFlagPointer(addr)
-		*p = c.Init
 		done := 0
 		for i := range c.Programs {
 			i := i
 			vrt.GoNamed(fmt.Sprintf("owner%d", i), func() {
+				if c.Create {
+					hosts[i] = NewSimpleHost(v2.Host{HostConfig: v2.HostConfig{Address: addr}}, info)
+				}
 				for _, set := range c.Programs[i] {
 					if set {
 						hosts[i].SetHealthFlag(c16Flags[i])
@@ -70,8 +84,16 @@ func c16Body(c c16Case, obs *struct {
 		vrt.WaitUntil("owners done", func() bool { return done == len(c.Programs) })
 		obs.final = uint64(hosts[0].HealthFlag())
 		obs.health = hosts[0].Health()
+		// host objects of one address share one word: every object reports the same conditions
+		for i := range hosts {
+			if w := uint64(hosts[i].HealthFlag()); w != obs.final && obs.midBad == "" {
+				obs.midBad = fmt.Sprintf("host object %d of the address reports word %#x, object 0 reports %#x: the objects do not share one word", i, w, obs.final)
+			}
+		}
 	}
 }
+
+var c16Fresh int
 
 func c16Expected(c c16Case) uint64 {
 	w := c.Init
@@ -147,6 +169,19 @@ func TestVerifC16Flags(t *testing.T) {
 			}
 		}
 	}
+	// concurrent FIRST creation of the host objects of an address (the shared word is allocated on first use)
+	for _, a := range progs {
+		for _, b := range progs {
+			cases = append(cases, c16Case{Programs: [][]bool{a, b}, Bound: vreport.Pick(3, -1), Create: true})
+		}
+	}
+	for _, a := range progs[:2] {
+		for _, b := range progs[:2] {
+			for _, c := range progs[:2] {
+				cases = append(cases, c16Case{Programs: [][]bool{a, b, c}, Bound: vreport.Pick(2, 3), Create: true})
+			}
+		}
+	}
 	complete := true
 	for _, c := range cases {
 		if p.Expired() {
@@ -179,7 +214,7 @@ func c16Run(p *vreport.Part, c c16Case, replay bool) bool {
 		c16Body(c, &obs)()
 	}, func(r *vrt.Result) {
 		p.Eval()
-		p.Distinct(fmt.Sprintf("%v|%v|%d", c.Init, c.Programs, obs.final))
+		p.Distinct(fmt.Sprintf("%v|%v|%v|%d", c.Init, c.Create, c.Programs, obs.final))
 		p.Outcome(fmt.Sprintf("%d/%d", obs.final, exp))
 		cc := c
 		cc.Choices = r.Choices
@@ -201,7 +236,11 @@ func c16Run(p *vreport.Part, c c16Case, replay bool) bool {
 				fmt.Sprintf("init=%#x programs=%v schedule=%v: final word %#x, expected %#x (lost bits %#x, invented bits %#x)", c.Init, c.Programs, r.Choices, obs.final, exp, lost, inv), cc)
 		}
 		if obs.midBad != "" {
-			p.Violation("health-flags owner reads back a different value of its own condition", obs.midBad, cc)
+			kind := "health-flags owner reads back a different value of its own condition"
+			if strings.Contains(obs.midBad, "do not share one word") {
+				kind = "health-flags: host objects of one address do not share one flag word"
+			}
+			p.Violation(kind, obs.midBad, cc)
 		}
 		if obs.health != (obs.final == 0) {
 			p.Violation("Health() disagrees with the flag word", fmt.Sprintf("word %#x Health()=%v", obs.final, obs.health), cc)
